@@ -114,12 +114,13 @@ def r1(idx, rep):
             bad = bad or f"results {rs}: predecessor {ps[0].result}, documented {want}"
     rep.check(bad is None, "R1", f"{fl.file}::ResultsManager.get_last_named_result table", bad or "", K.where(fl, fl.node))
     # a result's data file and actual input
-    fd = idx.method("Result", "data_file_path")
-    rep.check("os.path.join(self.instance_dir, 'data.csv')" in unparse(fd.node), "R1", f"{fd.file}::Result.data_file_path", "", K.where(fd, fd.node))
-    fa = idx.method("Result", "actual_data_file")
-    rep.check("self.csvpath.scanner.filename" in unparse(fa.node), "R1", f"{fa.file}::Result.actual_data_file is what the scanner read", "", K.where(fa, fa.node))
-    fs = idx.method("SourceMode", "value")
-    rep.check("self.controller.get(SourceMode.MODE) == SourceMode.PRECEDING" in unparse(fs.node), "R1", f"{fs.file}::SourceMode.value", "", K.where(fs, fs.node))
+    fd, ok, d = K.returns(idx, "Result", "data_file_path", "RUN/one/data.csv", handlers=K.JOIN, store={"self.instance_dir": "RUN/one"})
+    rep.check(ok, "R1", f"{fd.file}::Result.data_file_path", d, K.where(fd, fd.node))
+    fa, ok, d = K.returns(idx, "Result", "actual_data_file", "ACTUAL.csv", store={"self._actual_data_file": None, "self.csvpath.scanner.filename": "ACTUAL.csv", "self._csvpath.scanner.filename": "ACTUAL.csv"})
+    rep.check(ok, "R1", f"{fa.file}::Result.actual_data_file is what the scanner read", d, K.where(fa, fa.node))
+    for mv, want in (("preceding", True), ("origin", False), (None, False)):
+        fs, ok, d = K.returns(idx, "SourceMode", "value", want, store={"self._source_mode": None}, handlers={"self.controller.get": lambda i, c, r, a, k, mv=mv: mv if a == ["source-mode"] else "WRONG-KEY"})
+        rep.check(ok, "R1", f"{fs.file}::SourceMode.value for {mv!r}", d, K.where(fs, fs.node))
 
 
 def r3(idx, rep):
@@ -171,9 +172,10 @@ def r3(idx, rep):
     ps = it.run_all(fh, args={"ref": {"name": "b"}, "result": Obj("res")})
     rep.check(len(ps) == 1 and ps[0].result == ("return", ["x", "y"]), "R3", f"{fh.file}::Reference._get_value_from_results table",
               f"{ps[0].result}; documented ['x', 'y'] (the values collected under the header, from the referenced result's own lines)", K.where(fh, fh.node))
-    fr = idx.method("Reference", "_header_value")
-    src = unparse(fr.node)
-    rep.check("self.get_results()" in src and "self._get_value_from_results(ref, r)" in src, "R3", f"{fr.file}::Reference._header_value uses the referenced results", "", K.where(fr, fr.node))
+    seen = []
+    fr, ps = K.sym_result(idx, "Reference", "_header_value", handlers={"self._get_reference": lambda i, c, r, a, k: {"name": "h"}, "self.get_results": lambda i, c, r, a, k: Obj("RES"),
+                                                                 "self._get_value_from_results": lambda i, c, r, a, k: (seen.append(a), "VALS")[1]})
+    rep.check(len(ps) == 1 and ps[0].result == ("return", "VALS") and seen == [[{"name": "h"}, Obj("RES")]], "R3", f"{fr.file}::Reference._header_value uses the referenced results", f"{seen}", K.where(fr, fr.node))
     # get_results: the group named in the reference; single member or the member named by the tracking value
     fq = idx.method("Reference", "get_results")
     rep.analysed(fq)
